@@ -185,6 +185,39 @@ theorem quiescent_exit_takes_subtree (ops : List MOp) (a : Nat)
   obtain ⟨_, hD, hN, _, _⟩ := exitCore_spec h han hag
   exact ⟨hD, hN⟩
 
+/-- Round 4 follow-up (seeded change C05-10): the same for the lifecycle guard's cleanup of an actor whose START
+fails (`pre_start` returns Err / panics, or the start future is dropped) — `abort` is `cleanup` run from wherever
+the task was: whatever the actor had linked beneath itself by then (children it `spawn_linked` under itself inside
+`pre_start`, and everything beneath them) reaches Stopped with it. -/
+theorem quiescent_failed_start_takes_subtree (ops : List MOp) (a : Nat)
+    (hal : (mrun true {} ops).alive a = true) :
+    let m := mrun true {} ops
+    let m' := (mstep true m (.abort a)).1
+    (∀ z, Desc m.t a z → m'.t.status z = if z ≠ a ∧ m.t.status z = .stopping then .stopping else .stopped) ∧
+    (∀ z, ¬ Desc m.t a z → m'.t.status z = m.t.status z) := by
+  intro m m'
+  have h := mrun_MI ops
+  obtain ⟨han, hag⟩ := alive_iff.mp hal
+  have e : m'.t = (exitCore true m a).t := by
+    show (mstep true m (.abort a)).1.t = _
+    simp only [mstep, hal, ↓reduceIte, m]
+    rfl
+  rw [e]
+  obtain ⟨_, hD, hN, _, _⟩ := exitCore_spec h han hag
+  exact ⟨hD, hN⟩
+
+/-- Round 4 follow-up (seeded change C04-11): `unlink(child, x)` with `x` not the child's CURRENT supervisor
+(a stale unlink, e.g. with the former supervisor after a hand-over) is a no-op on every component of the
+tree — atomic layer, macro layer and concurrent layer alike. -/
+theorem stale_unlink_is_noop (s : State) (c x : Nat) (h : s.sup c ≠ some x) :
+    unlink s c x = s ∧
+    (∀ (m : MState), m.t = s → (mstep true m (.unlink c x)).1.t = m.t) ∧
+    (∀ (g : CState), g.t = s → (cstep g (.unlink c x)).t = g.t ∧ (cstep g (.unlink c x)).pc = g.pc) := by
+  have e : unlink s c x = s := by simp [Tree.unlink, h]
+  refine ⟨e, ?_, ?_⟩
+  · intro m hm; subst hm; show unlink m.t c x = m.t; exact e
+  · intro g hg; subst hg; exact ⟨e, rfl⟩
+
 /-- Handing a child over, in every reachable state (in particular while its supervisor has published
 `Stopping` and sits in `post_stop` with its child set still open — `setStatus a .stopping` is one of the
 operations): after an accepted `link c b` the child is in exactly one child set, `b`'s. -/
@@ -428,6 +461,26 @@ steps of the concurrent model, with a schedule point (`tree.take`) between them 
 theorem visit_is_kill_then_take (t : State) (y : Nat) :
     visit true t y = takeChildren (applyAct t (.kill y)) y := Tree.visit_eq_kill_take t y
 
+/-- Round 4 follow-up (seeded change C05-10), in the concurrent model: whatever the status of the actor when its cleanup begins (`Starting`
+included): `begin p false` is the guard's `cleanup`; for every schedule that comes to rest the subtree the actor
+had built is Stopped (unless an outside thread unlinked / handed over part of it meanwhile). -/
+theorem failed_start_takes_built_subtree (ops0 ops : List COp) (p z : Nat)
+    (hp : p < (crun cinit ops0).t.n) (hidle : (crun cinit ops0).pc p = .idle)
+    (hd : Desc (crun cinit ops0).t p z)
+    (hr : Rest (crun (crun cinit ops0) (.begin p false :: ops)))
+    (hne : ∀ y, DescP (crun cinit ops0).t p y →
+      escRun (cstep (crun cinit ops0) (.begin p false)) ops y = false) :
+    (crun (crun cinit ops0) (.begin p false :: ops)).t.status z = .stopped := by
+  have h1 : CInv (cstep (crun cinit ops0) (.begin p false)) := (conc_invariant ops0).step _
+  have ht : (cstep (crun cinit ops0) (.begin p false)).t = (crun cinit ops0).t := rfl
+  have hex : Exiting (cstep (crun cinit ops0) (.begin p false)) p := by
+    left
+    show cpc (crun cinit ops0) (.begin p false) p ≠ .idle
+    simp [cpc, hp, hidle, upd_apply]
+  rcases rest_subtree h1 ops hex (by rw [ht]; exact hd) hr with e | ⟨y, h2, _, h4⟩
+  · exact (rest_exiting (h1.run ops) hr e).2.1
+  · rw [ht] at h2; rw [hne y h2] at h4; cases h4
+
 /-! #### what a lock-free reader can see (`get_children`, `try_get_supervisor` do not take the tree lock) -/
 
 /-- an accepted hand-over `link c p` is two halves; between them only `TREE_MUTATION_LOCK` is held -/
@@ -498,6 +551,11 @@ theorem lock_regions_match_source :
     Extracted.treeLockUsers = [("link_below", true), ("unlink", true), ("take_children", true),
       ("get_children", false), ("for_each_child", false), ("try_get_supervisor", false)] ∧
     Extracted.linkReleasesBeforeOldParent = true ∧ Extracted.takeHoldsParentSet = true := by decide
+
+/-- follow-up: `unlink` returns early unless `supervisor` is the child's current supervisor (`Tree.unlink`'s `if`),
+and `cleanup` calls `terminate()` unconditionally (the exit machine has no "was running" flag) -/
+theorem unlink_and_cleanup_guards_match_source :
+    Extracted.unlinkOnlyCurrentSupervisor = true ∧ Extracted.cleanupTerminatesUnconditionally = true := by decide
 
 /-! ### Non-vacuity -/
 
@@ -596,6 +654,15 @@ example : let s := steps true init [.spawn, .spawn, .setStatus 0 .running, .setS
     (link s 1 0).2 = false ∧ (linkStart s 1 0).2 = true ∧ (linkStart s 1 0).1.sup 1 = some 0 ∧
       (linkStart (setStatus s 1 .stopping) 1 0).2 = false ∧ (linkStart s 0 1).2 = false := by decide
 
+/-- follow-up: a parent that links two children under itself in `pre_start` and then fails to start (the macro ops
+the E-LTS driver replays for `spawnpre 2 …`): all three are Stopped, nobody is told; and a stale unlink after a
+hand-over changes nothing, the child's failure is reported to the supervisor it has -/
+example : let m := mrun true {} [.spawn, .spawnl 0, .spawnl 0, .abort 0]
+    m.t.status 0 = .stopped ∧ m.t.status 1 = .stopped ∧ m.t.status 2 = .stopped ∧ m.t.kids 0 = none ∧ m.t.sup 1 = none ∧
+      m.evs = [] := by decide
+example : let m := mrun true {} [.spawn, .spawn, .spawnl 0, .link 2 1, .unlink 2 0, .fail 2]
+    m.t.sup 2 = none ∧ m.t.kids 1 = some [] ∧ m.t.status 2 = .stopped ∧ m.evs = [(2, 1, .failed)] := by decide
+
 end C05
 
 #print axioms C05.invariant
@@ -650,3 +717,7 @@ end C05
 #print axioms C05.link_limits_match_source
 #print axioms C05.lock_regions_match_source
 #print axioms C05.cut_by_take_is_exiting
+#print axioms C05.quiescent_failed_start_takes_subtree
+#print axioms C05.failed_start_takes_built_subtree
+#print axioms C05.stale_unlink_is_noop
+#print axioms C05.unlink_and_cleanup_guards_match_source
